@@ -74,41 +74,63 @@ func applyUnifiedDiff(root string, diff []byte) (map[string][]byte, error) {
 				return nil, fmt.Errorf("malformed hunk header %q", hdr)
 			}
 			i++
-			start := os_ - 1
-			if ol == 0 {
-				start = os_
-			}
-			if start < pos || start > len(src) {
-				return nil, fmt.Errorf("anchor: hunk %q does not fit %s", hdr, rel)
-			}
-			res = append(res, src[pos:start]...)
-			pos = start
+			// collect the hunk body
+			var oldBlk, newBlk []string
 			seenOld, seenNew := 0, 0
 			for i < len(lines) && (seenOld < ol || seenNew < nl) {
 				ln := lines[i]
 				switch {
 				case strings.HasPrefix(ln, "\\"):
 				case strings.HasPrefix(ln, "-"):
-					if pos >= len(src) || src[pos] != ln[1:] {
-						return nil, fmt.Errorf("anchor: hunk %q of %s does not match the tree at line %d", hdr, rel, pos+1)
-					}
-					pos++
+					oldBlk = append(oldBlk, ln[1:])
 					seenOld++
 				case strings.HasPrefix(ln, "+"):
-					res = append(res, ln[1:])
+					newBlk = append(newBlk, ln[1:])
 					seenNew++
 				default:
 					t := strings.TrimPrefix(ln, " ")
-					if pos >= len(src) || src[pos] != t {
-						return nil, fmt.Errorf("anchor: hunk %q of %s does not match the tree at line %d", hdr, rel, pos+1)
-					}
-					res = append(res, t)
-					pos++
+					oldBlk = append(oldBlk, t)
+					newBlk = append(newBlk, t)
 					seenOld++
 					seenNew++
 				}
 				i++
 			}
+			// place it: at the stated line if the old block is there, otherwise at the nearest place
+			// after the previous hunk where it occurs (the tree may have moved since the diff was made,
+			// as `git apply` tolerates)
+			start := os_ - 1
+			if ol == 0 {
+				start = os_
+			}
+			matchAt := func(at int) bool {
+				if at < pos || at+len(oldBlk) > len(src) {
+					return false
+				}
+				for k, l := range oldBlk {
+					if src[at+k] != l {
+						return false
+					}
+				}
+				return true
+			}
+			if !matchAt(start) {
+				found := -1
+				for d := 1; d < len(src) && found < 0; d++ {
+					if matchAt(start - d) {
+						found = start - d
+					} else if matchAt(start + d) {
+						found = start + d
+					}
+				}
+				if found < 0 || len(oldBlk) == 0 {
+					return nil, fmt.Errorf("anchor: hunk %q of %s does not match the tree", hdr, rel)
+				}
+				start = found
+			}
+			res = append(res, src[pos:start]...)
+			res = append(res, newBlk...)
+			pos = start + len(oldBlk)
 			for i < len(lines) && strings.HasPrefix(lines[i], "\\") {
 				i++
 			}
